@@ -32,10 +32,11 @@ def explore(tier, seed):
                     renv["resolvers"][coord] = {"k": "const", "v": sg.value_for(f["type"], 3, 0.05)}
         b = loop.run_until_complete(er.build_engine(sg.model(), renv))
         fresh = loop.run_until_complete(er.build_engine(sg.model(), renv))      # never sees concurrent traffic
+        b.scribble = fresh.scribble = si % 2 == 0       # resolvers that modify their own arguments in place
         pool = []
         for _ in range(8):
             dg = DocGen(sg, rng, op_kinds=("query", "mutation") if sg.mutation else ("query",))
-            dg.nested_vars = True; dg.repeat_with_directive = True
+            dg.nested_vars = rng.choice([True, 0.9]); dg.repeat_with_directive = True
             q, ops, opvars = dg.document(n_ops=rng.choice([1, 2]))
             k = rng.randrange(len(ops))
             for _ in range(3):        # the same document with different variables (shared cached AST)
